@@ -71,10 +71,6 @@ def Cmd2.render : Cmd2 → String
   | .h c => c.render
 
 structure HSt extends St where
-  ta : List Rule := []                   -- tunnel-group-map rules of the device / the target
-  tb : List Rule := []
-  wa : Option (List Rule) := none        -- toplevel webvpn exists: its certificate-group-map rules
-  wb : Option (List Rule) := none
   tDel : List Nat := []                  -- device tunnel-group-map rules marked toDelete (positions)
   tNeeded : List Nat := []               -- … marked needed
   all : List Cmd2 := []                  -- the change list so far
@@ -174,8 +170,8 @@ def inGpUser : Option (Kind × String × String) → Bool
 def St.appendOut (st : St) (l : List Chg) : St := { st with out := st.out ++ l, mode := none }
 
 /-- `diffWebVPN` -/
-def diffWeb (h : HSt) : Option HSt :=
-  match h.wa, h.wb with
+def diffWeb (h : HSt) (wa wb : Option (List Rule)) : Option HSt :=
+  match wa, wb with
   | none, none => some h
   | none, some bl =>
     -- addCmds([webvpn]): follow the references of all sub-commands, then the command with all its sub-commands
@@ -187,8 +183,8 @@ def diffWeb (h : HSt) : Option HSt :=
   | some al, none => some (if al.isEmpty then h else delRules h true (withIdx al))
 
 /-- `deleteUnused` with the marked toplevel rules: they go in the first round, after the tunnel-groups -/
-def deleteUnusedH (h : HSt) : HSt :=
-  let rules := (withIdx h.ta).filter fun p => h.tDel.contains p.1 && !h.tNeeded.contains p.1
+def deleteUnusedH (ta : List Rule) (h : HSt) : HSt :=
+  let rules := (withIdx ta).filter fun p => h.tDel.contains p.1 && !h.tNeeded.contains p.1
   if rules.isEmpty then h.lift deleteUnused else
   let objs := pendingDel h.toSt
   let h := if h.mode.isSome then h.lift (·.emit .exit) else h
@@ -205,13 +201,15 @@ structure Cfg where
   web : Option (List Rule) := none
   deriving Repr, Inhabited
 
-def initH (a b : Cfg) : HSt :=
-  { toSt := initSt a.objs b.objs, ta := a.tgmap, tb := b.tgmap, wa := a.web, wb := b.web }
+def initH (a b : Cfg) : HSt := { toSt := initSt a.objs b.objs }
+
+/-- the part before `deleteUnused` -/
+def bodyH (a b : Cfg) : Option HSt :=
+  (((initH a b).liftO fun st => diffAnchors st .tg).bind fun h => diffRules h false a.tgmap b.tgmap).bind fun h =>
+    (h.liftO fun st => diffAnchors st .user).bind fun h => diffWeb h a.web b.web
 
 /-- `diffConfig` for the prefixes of the fragment in sorted order: tunnel-group, tunnel-group-map, username, webvpn; `deleteUnused` -/
-def runH (a b : Cfg) : Option HSt :=
-  ((((initH a b).liftO fun st => diffAnchors st .tg).bind fun h => diffRules h false h.ta h.tb).bind fun h =>
-    (h.liftO fun st => diffAnchors st .user).bind diffWeb).map deleteUnusedH
+def runH (a b : Cfg) : Option HSt := (bodyH a b).map (deleteUnusedH a.tgmap)
 
 def engineH (a b : Cfg) : Option (List Cmd2) := (runH a b).map (·.all)
 
